@@ -22,6 +22,8 @@ def Column.hashInput (g : Globals) (c : Column) : String := g.esc c.name ++ " " 
 /-- md5 pre-image of an index: its statements for the empty table name, always with the upper-case templates -/
 def Index.hashInput (g : Globals) (i : Index) : M String := do
   let gu := { g with lower := false }
+  -- an explicit USING BTREE is the default index type: hashed as an index without USING
+  let i := if i.indexType == "BTREE" then { i with indexType := "" } else i
   let ss ← i.migrationUp gu ""
   let lines ← ss.mapM (Stmt.render gu)
   pure (";".intercalate lines)
